@@ -47,6 +47,11 @@ def run(chk, w):
     chk.extra["receiver_root"] = rx
     chk.extra["receiver_functions"] = len(rxf)
 
+    # ---- DELIM (shared with C02): a truncated packet cannot swallow the packet that follows
+    from . import c02
+    chk.rule("C12-DELIM", "every byte is compared with the packet delimiter before it can be stored as payload (a packet cut off after an escape byte does not swallow the next packet)")
+    c02.delim_standalone(chk, w, "C12-DELIM")
+
     # ---- TAB / PKT
     E = intervals.Engine(w, set())
     chk.rule("C12-TAB", "every variable subscript of a fixed-size table or local array in the receiver's call tree is in range")
